@@ -108,14 +108,21 @@ fn gen_scene(rng: &mut Rng, idx: u64) -> Option<Scene> {
         goal[j] += if goal[j] > 0.0 { -2.0 * std::f64::consts::PI } else { 2.0 * std::f64::consts::PI };
     }
     if layout == "tiny_cell" {
-        // every joint may move by a few planner steps only: samples land between one and two steps from tree nodes
-        // all the time (edges and junction hops are as long as the planner ever makes them)
+        // start and goal 3 .. 3.6 planner steps apart inside a box that hugs the straight segment (0.1 .. 0.4 step of
+        // margin): the first sample lands one to two steps from the start, nearly on the line to the goal, and the
+        // other tree connects with a remainder - edges and the junction hop are as long as the planner ever makes them
+        let dir: [f64; 6] = std::array::from_fn(|_| rng.normal());
+        let n = dir.iter().map(|x| x * x).sum::<f64>().sqrt().max(1e-9);
+        let dist = step * rng.range(3.0, 3.6);
         let (mut from, mut to) = (start, start);
         for j in 0..6 {
-            let w = rng.range(0.1, 0.2);
-            from[j] -= w;
-            to[j] += w;
-            goal[j] = start[j] + rng.range(-0.95, 0.95) * w;
+            goal[j] = start[j] + dir[j] / n * dist;
+            let m = step * rng.range(0.1, 0.4);
+            from[j] = start[j].min(goal[j]) - m;
+            to[j] = start[j].max(goal[j]) + m;
+        }
+        if goal.iter().any(|g| g.abs() > 3.0) {
+            return None;
         }
         cell.constraints = Constraints::new(from, to, 0.0);
         if cell.build().collides(&goal) {
@@ -257,7 +264,7 @@ fn check_path(mon: &mut Mon, s: &Scene, robot: &KinematicsWithShape, path: &Vec<
 
 fn paths(idx: u64, rng: &mut Rng, mon: &mut Mon, s: &Scene) {
     // (the low-dimensional layout is where an unchecked sample can enter a tree: more plannings there)
-    let repeats = if s.layout == "narrow_limits" { 12 } else if s.layout == "tiny_cell" { 40 } else { 4 };
+    let repeats = if s.layout == "narrow_limits" { 12 } else if s.layout == "tiny_cell" { 250 } else { 4 };
     mon.count(&format!("layout.{}", s.layout));
     for _ in 0..repeats {
         let (robot, spy) = build_spied(&s.cell, None);
